@@ -2,11 +2,11 @@
 # Regression of the machinery itself: every stored seeded change (seeded/<id>/patch.diff) is applied to a scratch worktree
 # of /repo HEAD and the check of its property must report it (exit 1). Properties run in parallel, the changes of one
 # property one after the other (they share coq/gen and the .vo files of the property).
-#   tools/seeded_regress.sh [quick|thorough] [jobs]
+#   tools/seeded_regress.sh [quick|thorough] [jobs] ["C01 C02 ..."]      (VERIF_SEED is passed on)
 tier="${1:-quick}"; jobs="${2:-4}"
 verif="$(cd "$(dirname "$0")/.." && pwd)"
 out="$verif/build/seeded_regress"; mkdir -p "$out"; rm -f "$out"/*.txt
-props=$(ls "$verif/seeded" | sed 's/-.*//' | sort -u)
+props="${3:-$(ls "$verif/seeded" | sed 's/-.*//' | sort -u)}"
 run_prop() {
   p="$1"
   for d in "$verif"/seeded/"$p"-*/; do
@@ -28,5 +28,6 @@ export -f run_prop; export verif out tier
 echo $props | tr ' ' '\n' | xargs -P "$jobs" -I{} bash -c 'run_prop {}'
 sort "$out/result.txt"
 missed=$(grep -c "rc=0" "$out/result.txt")
-echo "seeded changes: $(wc -l < "$out/result.txt"), not reported: $missed"
+only=$(awk '{split($3,a,"=");split($4,b,"=");if($2=="rc=1"&&a[2]==b[2])print $1}' "$out/result.txt" | tr '\n' ' ')
+echo "seeded changes: $(wc -l < "$out/result.txt"), not reported: $missed, reported without a failing input: ${only:-none}"
 [ "$missed" = "0" ]
